@@ -171,6 +171,15 @@ pub fn judge_enc(
             }
         }
         "C06" | "C07" | "C08" => {
+            // each of the three speaks of its own family of encoders only
+            let in_family = match prop {
+                "C06" => call.is_request(),
+                "C07" => call.is_response(),
+                _ => !call.is_request() && !call.is_response(),
+            };
+            if !in_family {
+                return j;
+            }
             let r = run_enc(ctx, call, dst, exp_len.max(64) + 8, 2);
             if want_obs {
                 j.observed = obs_of(&r);
@@ -666,6 +675,7 @@ pub fn run_c03(run: &mut Run) {
     sweep_enc(run, "C03", "writers x every data length x walking contents", n, &f, &Addrs::List(vec![(0x23, 0x34), (0x7F, 0x01)]), 2);
     c03_responses(run);
     sweep_encseq(run, "C03");
+    enc_pairs(run, "C03");
 }
 
 /// C03 also covers the packets the library encodes on its own: the responses
@@ -755,6 +765,7 @@ pub fn run_c04(run: &mut Run) {
     let (n, f) = sized_space(300);
     sweep_enc(run, "C04", "writers x every data length 0..=300 x contents", n, &f, &Addrs::List(vec![(0x55, 0x2A)]), 1);
     sweep_encseq(run, "C04");
+    enc_pairs(run, "C04");
 }
 
 pub fn run_c05(run: &mut Run) {
@@ -771,6 +782,7 @@ pub fn run_c05(run: &mut Run) {
     };
     spaces_sweep(run, "C05", &sp, &a, 1);
     sweep_encseq(run, "C05");
+    enc_pairs(run, "C05");
 }
 
 pub fn run_c06(run: &mut Run) {
@@ -788,6 +800,7 @@ pub fn run_c06(run: &mut Run) {
     let basic: Vec<EncCall> = basic_calls().into_iter().filter(|c| c.is_request()).collect();
     sweep_enc(run, "C06", "request tuples x 5 pairs x 4 ctxs", basic.len() as u64, &|i| basic[i as usize].clone(), &five_pairs(), 4);
     sweep_encseq(run, "C06");
+    enc_pairs(run, "C06");
 }
 
 /// C07 adds the stored-EID dimension through context histories.
@@ -848,6 +861,7 @@ pub fn run_c07(run: &mut Run) {
         }
     });
     sweep_encseq(run, "C07");
+    enc_pairs(run, "C07");
 }
 
 pub fn run_c08(run: &mut Run) {
@@ -872,14 +886,15 @@ pub fn run_c16(run: &mut Run) {
     // refusal axis: reserved EIDs x 4 operations x all 128x128 addresses
     sweep_enc(run, "C16", "set_endpoint_id EID in {0x00,0xFF,0x01,0xFE} x 4 ops x 128x128", 16, &|i| EncCall::ReqSetEid { op: (i / 4) as u8, eid: [0x00, 0xFF, 0x01, 0xFE][(i % 4) as usize] }, &Addrs::All7, 1);
     sweep_encseq(run, "C16");
-    c16_reuse_pairs(run);
+    enc_pairs(run, "C16");
 }
 
-/// Every ordered pair (previous, current) over complete small argument spaces,
-/// the current call writing into the buffer that still holds the previous
-/// call's packet (same destination, often the same length): the output must
-/// not depend on those previous contents.
-fn c16_reuse_pairs(run: &mut Run) {
+/// ENCPAIR: every ordered pair (previous, current) over complete small argument
+/// spaces on one context, the current call writing into the buffer that still
+/// holds the previous call's packet (same destination, often the same length)
+/// and, for the other encoder properties, also into a fresh buffer: the output
+/// of the second call is judged by the property's own aspect.
+pub fn enc_pairs(run: &mut Run, prop: &'static str) {
     let spaces: Vec<(&str, u64, Box<dyn Fn(u64) -> EncCall + Sync>)> = vec![
         ("set_endpoint_id op x eid", 1024, Box::new(|i| EncCall::ReqSetEid { op: (i / 256) as u8, eid: i as u8 })),
         ("query_hop eid x type", 1536, Box::new(|i| EncCall::ReqQueryHop { eid: i as u8, ty: (i / 256) as u8 })),
@@ -913,7 +928,7 @@ fn c16_reuse_pairs(run: &mut Run) {
                 acc.evals += 1;
                 let EncOut::Ok(pn) = r.out else { continue };
                 set_prefill(Some(r.buf[..pn.min(r.buf.len())].to_vec()));
-                let j = judge_enc("C16", &ctx, &probe, cfg.addr, 0, &cur, 0x34, 0, false);
+                let j = judge_enc(prop, &ctx, &probe, cfg.addr, 0, &cur, 0x34, 0, false);
                 set_prefill(None);
                 acc.trans += 4;
                 acc.validated += 1;
@@ -926,7 +941,7 @@ fn c16_reuse_pairs(run: &mut Run) {
                 for (kind, d) in j.viols {
                     let history = vec![Event::Encode { call: prev.clone(), dst: 0x34 }];
                     acc.violation(2, kind, format!("into the buffer still holding the packet of {:?}: {}", prev, d), || {
-                        json!({"prop": "C16", "check": "encseq", "cfg": cfg, "history": history, "call": cur, "dst": 0x34, "reuse": true})
+                        json!({"prop": prop, "check": "encseq", "cfg": cfg, "history": history, "call": cur, "dst": 0x34, "reuse": true})
                     });
                 }
             }
